@@ -653,7 +653,7 @@ spiftool_condense_whitespace(spif_charptr_t s)
             pbuff++;
         }
     }
-    if ((pbuff >= s) && (isspace(*(pbuff - 1))))
+    if ((pbuff > s) && (isspace(*(pbuff - 1))))
         pbuff--;
     *pbuff = 0;
     D_STRINGS(("condense_whitespace() returning \"%s\".\n", s));
